@@ -85,6 +85,10 @@ fn scenario(pr: &Params) -> Verdict {
                 }
             }
             for (i, op) in hist.iter().enumerate() {
+                if i > 0 {
+                    // time passes between two calls of the application: everything else may run here
+                    world::yield_now().await;
+                }
                 let r = if *op < NT { sock.subscribe(topic(*op)).await } else { sock.unsubscribe(topic(*op)).await };
                 world::log(format!("call#{} {}({}) -> {}", i, if *op < NT { "subscribe" } else { "unsubscribe" }, topic(*op), e3::ok_or_err(&r)));
             }
@@ -252,7 +256,7 @@ pub fn run(tier: Tier, replay: Option<String>) -> i32 {
     ck.cov("traces_validated_against_impl", ex);
     ck.cov("call_histories", hists.len() as u64);
     ck.cov("exhaustive", ck.coverage.get("e3_scenarios_capped").and_then(|v| v.as_u64()) == Some(0));
-    ck.cov("explanation", format!("every history of subscribe/unsubscribe calls over topics a, ab, b (a proper-prefix pair and an unrelated topic) of length <= {} ({} histories, incl. repeats and never-subscribed topics) on a real SUB socket with 1-2 (thorough 3) raw PUB peers whose attach actors may run at ANY point — including inside peer_connected between the snapshot of the set and the registration, and inside subscribe between the set update and the fan-out (yield points) — every schedule within the deviation bound from 2 default policies and both spawn orders; plus, for histories of length <= 3, one peer whose connection starts failing writes at any point, for each position of the failing peer, with and without one more peer that joins only after every call has returned, and 2 (thorough 4) hash keys of the peer table (iteration order). Oracle at quiescence, from the reference-decoded wires folded into per-topic counts (RFC 29): all live peers agree on subscribed / not subscribed for every topic; for histories that never subscribe an already-subscribed topic every live peer's view equals the set implied by the calls; a failing peer does not stop the others from being updated; no panic. states = distinct observed outcomes.", max_len, hists.len()));
+    ck.cov("explanation", format!("every history of subscribe/unsubscribe calls over topics a, ab, b (a proper-prefix pair and an unrelated topic) of length <= {} ({} histories, incl. repeats and never-subscribed topics) on a real SUB socket with 1-2 (thorough 3) raw PUB peers whose attach actors may run at ANY point — between two calls, inside peer_connected between the snapshot of the set and the registration, and inside subscribe between the set update and the fan-out (yield points) — every schedule within the deviation bound from 2 default policies and both spawn orders; plus, for histories of length <= 3, one peer whose connection starts failing writes at any point, for each position of the failing peer, with and without one more peer that joins only after every call has returned, and 2 (thorough 4) hash keys of the peer table (iteration order). Oracle at quiescence, from the reference-decoded wires folded into per-topic counts (RFC 29): all live peers agree on subscribed / not subscribed for every topic; for histories that never subscribe an already-subscribed topic every live peer's view equals the set implied by the calls; a failing peer does not stop the others from being updated; no panic. states = distinct observed outcomes.", max_len, hists.len()));
     ck.assume("for double-subscribe histories only agreement among peers is demanded (set vs reference-count semantics of the socket is not fixed by the statement)");
     ck.conclude()
 }
